@@ -34,10 +34,33 @@ MP_GRIDS = [(1, 1, 1), (2, 1, 1), (1, 1, 2), (1, 3, 1), (2, 2, 1), (2, 2, 2), (3
             (3, 3, 1), (3, 3, 2), (2, 3, 3), (3, 3, 3), (4, 2, 1), (1, 1, 5), (4, 3, 2), (5, 5, 1)]
 
 
+class SerialPool:
+    """stand-in for multiprocessing.Pool: the AMN/MMN readers create a pool even for npar=1; forking from a
+    process that holds numba/BLAS state costs seconds on a loaded machine.  Everything the readers do with the
+    pool is `map`, `close`, `join`; the parsing functions and the chunking logic still run unchanged."""
+    used = 0
+
+    def __init__(self, processes=None, *a, **k):
+        SerialPool.used += 1
+
+    def map(self, func, iterable, chunksize=None):
+        return [func(x) for x in iterable]
+
+    def close(self):
+        pass
+
+    def join(self):
+        pass
+
+    def terminate(self):
+        pass
+
+
 def setup(ctx):
+    import multiprocessing
     env.import_wb()
     os.makedirs(os.path.join(env.WORK, "c19"), exist_ok=True)
-    return {}
+    return dict(real_pool=multiprocessing.Pool, mp=multiprocessing)
 
 
 # ------------------------------------------------------------------ introspection
@@ -323,6 +346,8 @@ def text_roundtrip(ctx, tmp, objs, bk, wit, rng):
             ctx.violation("MMN.to_w90_file/from_w90_file:bk_reorder", f"file written in bkvec order read with reorder {m2.bk_reorder[ik]} at ik={ik}", wit)
             break
     # the same file with the neighbour blocks permuted (harness-side rewrite)
+    if rng.random() < 0.5:
+        return
     perms = [rng.permutation(NNB) for _ in range(NK)]
     permute_mmn_file(seed + ".mmn", os.path.join(tmp, "perm.mmn"), NB, NK, NNB, perms)
     m3 = MMN.from_w90_file(os.path.join(tmp, "perm"), bkvec=bk, npar=1)
@@ -374,11 +399,11 @@ EXTRA_FILES = (("spn", "SPN"), ("uiu", "UIU"), ("uhu", "UHU"), ("siu", "SIU"), (
 
 
 def container_roundtrip(ctx, tmp, rng, objs, bk, wit, sparse):
-    from wannierberri.w90files import EIG, AMN, MMN, WannierData
+    from wannierberri.w90files import WannierData
     extras = [e for e in EXTRA_FILES if e[1] in objs and rng.random() < 0.5]
     wd = make_container(objs, extras, irreducible=sparse)
     keys = ["chk", "bkvec", "eig", "amn", "mmn"] + [e[0] for e in extras]
-    seed = os.path.join(tmp, "cont", "seed")
+    seed = os.path.join(tmp, f"cont{int(sparse)}", "seed")
     with_win = (not sparse) and "WIN" in objs and rng.random() < 0.4
     if with_win:
         wd.set_file("win", objs["WIN"])
@@ -395,23 +420,27 @@ def container_roundtrip(ctx, tmp, rng, objs, bk, wit, sparse):
     if sparse:
         ctx.count("wandata_sparse")
         return
-    # write -> the text readers
-    seedw = os.path.join(tmp, "cont", "written")
+    # write: the container must produce, byte for byte, the files of the three writers (which text_roundtrip has read
+    # back); only the date line of the .amn header may differ
+    seedw = os.path.join(tmp, "cont0", "written")
     wd.write(seedw, files=["eig", "amn", "mmn"])
     ctx.count("wandata_write")
-    e2 = EIG.from_w90_file(seedw)
-    a2 = AMN.from_w90_file(seedw, npar=1)
-    m2 = MMN.from_w90_file(seedw, bkvec=bk, npar=1)
-    fixed_close(ctx, "WannierData.write:eig", objs["EIG"].data, e2.data, 12, "eig written by the container", wit)
-    fixed_close(ctx, "WannierData.write:amn", objs["AMN"].data, a2.data, 12, "amn written by the container", wit)
-    fixed_close(ctx, "WannierData.write:mmn", objs["MMN"].data, m2.data, None, "mmn written by the container", wit)
+    for ext in ("eig", "amn", "mmn"):
+        ctx.ev()
+        a = open(os.path.join(tmp, "txt." + ext)).read().split("\n")
+        b = open(seedw + "." + ext).read().split("\n") if os.path.exists(seedw + "." + ext) else None
+        if ext == "amn" and b is not None:
+            a, b = a[1:], b[1:]
+        if a != b:
+            ctx.violation(f"WannierData.write:{ext}", f"the .{ext} file written by the container differs from the file "
+                                                      f"written by {ext.upper()}.to_w90_file", wit)
     # the documented default files=None ("all files are written")
     only = WannierData()
     for key, name in (("bkvec", "BKVectors"), ("eig", "EIG"), ("amn", "AMN"), ("mmn", "MMN")):
         only.set_file(key, objs[name])
     # NOT JUDGED (outside the property statement, which speaks of the objects that offer writing): informational only
     try:
-        only.write(os.path.join(tmp, "cont", "default"))
+        only.write(os.path.join(tmp, "cont0", "default"))
     except AttributeError:
         ctx.count("info_not_judged:write(files=None)_raises_for_container_with_bkvec")
     else:
@@ -446,6 +475,13 @@ def soc_container_roundtrip(ctx, tmp, rng, objs_up, objs_dw, wit):
 
 
 def case(ctx, rng, idx, state):
+    # real process pools in one case out of ten, the serial stand-in otherwise
+    if idx % 10 == 3:
+        state["mp"].Pool = state["real_pool"]
+        ctx.count("cases_with_real_multiprocessing_pool")
+    else:
+        state["mp"].Pool = SerialPool
+        ctx.count("cases_with_serial_pool_standin")
     if rng.random() < 0.1:
         mp, NB = (1, 1, 1), 1            # one-line .eig file
     else:
@@ -499,19 +535,19 @@ if __name__ == "__main__":
                          for n in found if n not in RECIPES}
     harness.main(
         PROP, "exploration", case, setup_fn=setup,
-        tiers=dict(quick=dict(cases=48, shards=8, time=100), thorough=dict(cases=1600, shards=16, time=900)),
+        tiers=dict(quick=dict(cases=40, shards=8, time=100), thorough=dict(cases=1600, shards=16, time=900)),
         rule="file objects built from random arrays: Gamma-centred meshes (1,1,1)...(3,3,3) incl. anisotropic ones in random "
              "k order, NB 1-8, NW 1-NB, NNB from the real b-vector search on random/Bravais lattices, data magnitudes "
              "1e-11...1e3, optional tags present/absent, random bk_reorder, full and sparse-k objects; every case holds random "
              "non-zero data, so each is non-trivial; distinct by (mp_grid, NB, NW, NNB, lattice kind, magnitude)",
         assumptions=["EIG/AMN documented format %17.12f -> |diff| <= 0.5e-12 (+2 ulp); MMN prints repr -> exact; npz exact",
-                     "readers are called with npar=1",
+                     "readers are called with npar=1; in 9 cases out of 10 multiprocessing.Pool is replaced by a serial stand-in (map/close/join) to avoid forking, the real pool is used in the remaining cases",
                      "the permuted-neighbour mmn file is produced by the harness from the written file",
                      "WannierData.write is called with files=['eig','amn','mmn'] for the deciding comparison; the default "
                      "files=None call is probed separately",
                      "classes without an own equals (CheckPoint, WIN) are compared attribute-by-attribute only"],
         required_counters=("text_eig", "text_amn", "text_mmn", "eig_single_line", "mmn_permuted_file", "npz_sparse",
-                           "wandata_npz", "wandata_write", "wandata_sparse", "wandata_soc", "own_equals_called")
+                           "wandata_npz", "wandata_write", "wandata_sparse", "wandata_soc", "own_equals_called", "cases_with_real_multiprocessing_pool")
         + tuple(f"npz_{n}" for n in RECIPES),
         extra_coverage=dict(savable_classes_found=found, not_constructible=not_constructible),
     )
